@@ -62,6 +62,12 @@ CHECKS = {
         note="Expected values follow from the generator's atoms (no parsing shared with the code under test); a leading-dash value attached to -isystem/-include is outside the generated domain (spelling collides with other real options).",
         ref="2 C11",
     ),
+    "C13": dict(
+        technique="property-based testing: Hypothesis databases with generated path spellings vs independent path model + reference preprocessor model, differential against gcc -E run from the entry's directory",
+        text="Generated-input search over compilation databases whose entries spell directory/file/-I absolutely, relative to the root or to a build directory (inside and outside the root) with ./ and .. segments, as command strings or argument arrays, mixed with entries that must be skipped. entry['file'] and entry['include_paths'] are compared with a path model, per-line attribution with the preprocessor model on canonical paths; gcc -E with the entry's own arguments run from the entry's directory validates both. Every skipped entry must be named by a WARNING, nothing may raise, unnamed files get no platform. Bounded exploration.",
+        note="Trusts gcc 12 for how a compiler running in `directory` interprets relative paths; cases with reached missing headers or gcc diagnostics are excluded.",
+        ref="2 C13",
+    ),
     "C14": dict(
         technique="property-based testing with harness-owned schedules: Hypothesis code bases re-analysed in fresh processes under generated (hash seed, directory-order shuffle, platform/entry permutation) triples; all schedules must agree",
         text="Generated-input search over order-sensitive code bases (same-named headers in several -I directories, byte-identical twins, >=3 platforms). Each input is analysed in fresh interpreter processes under several generated schedules - PYTHONHASHSEED in {0..3, random}, os.scandir/os.listdir shuffled by a seed through a wrapper, [platform.*] tables and database entries permuted - and the platform-set table, printed metrics and distance matrix, per-line attribution, coverage export, duplicate groups and tree rows must be equal after parsing. Bounded sample of schedules, no exhaustive interleaving.",
